@@ -10,7 +10,7 @@ import random
 
 import rx
 
-from ..common import Check, Outcome, Snap, subscribe, bootstrap, norm, interleave, with_prelude, prelude_tags, shrink_prelude, PRELUDE_TAGS
+from ..common import Check, Outcome, Snap, subscribe, bootstrap, norm, interleave, with_prelude, prelude_tags, shrink_prelude, PRELUDE_TAGS, PRELUDE_RULE
 from ..muxmon import tap
 from .. import progs, gen
 
@@ -135,6 +135,7 @@ class C10(Check):
             'None/explicit, start_with (incl. empty padding), batch n in {1,2,3,4,7}, sort by key asc/desc on (key, tag) pairs to observe stability) x modes plain (where the '
             'operator supports it), one multiplexed key, per group under group_by with 2-3 interleaved groups, and per lifetime inside roll(2,2) windows and split segments (one key slot serving successive lifetimes); then random sequences of length up to 40 with lengths at and '
             'around multiples of n. non-trivial = sequence length >= 2; distinct = hash of the case')
+    RULE += PRELUDE_RULE
     ASSUMPTIONS = ['first / last on an empty PLAIN observable raise by design and are not compared there',
                    'sort is documented for plain observables only; batch(0) and negative sizes are outside the statement']
     ANCHORS = ['rxsci/operators/first.py', 'rxsci/operators/last.py', 'rxsci/operators/take.py', 'rxsci/operators/distinct.py',
